@@ -1218,6 +1218,12 @@ class WebSocketProtocol13(WebSocketProtocol):
                 self._abort()
                 return
             if not is_final_frame:
+                if opcode not in (0x1, 0x2):
+                    # reserved non-control opcode: fail now instead of
+                    # buffering fragments of a message that can never
+                    # be delivered
+                    self._abort()
+                    return
                 self._fragmented_message_opcode = opcode
                 self._fragmented_message_buffer = bytearray(data)
 
